@@ -169,13 +169,21 @@ def check_from_algmod(prog, rep, c):
             for n in ast.walk(lp):
                 if isinstance(n, ast.AugAssign) and isinstance(n.op, ast.Add) and isinstance(n.target, ast.Subscript) \
                         and any(isinstance(x, ast.Name) and x.id in dbl for x in ast.walk(n.value)):
-                    sl = n.target.slice.elts if isinstance(n.target.slice, ast.Tuple) else [n.target.slice]
-                    full = 0
-                    for e in reversed(sl):
-                        if isinstance(e, ast.Slice) and e.lower is None and e.upper is None:
-                            full += 1
-                        else:
-                            break
+                    sl = list(n.target.slice.elts) if isinstance(n.target.slice, ast.Tuple) else [n.target.slice]
+                    while sl and isinstance(sl[-1], ast.Slice) and sl[-1].lower is None and sl[-1].upper is None:
+                        sl.pop()
+                    # axes the store keeps whole = rank of the allocation - number of leading indices (x[i, j] and x[i, j, :, :] are the same store)
+                    full = None
+                    al = defs.get(n.target.value.id, [None])[0] if isinstance(n.target.value, ast.Name) else None
+                    if isinstance(al, ast.Call) and (prog.dotted(f.module, al.func) or "") in ("numpy.zeros", "numpy.empty", "numpy.full", "numpy.ones") and al.args:
+                        shp = al.args[0]
+                        if isinstance(shp, ast.Name) and len(defs.get(shp.id, [])) == 1:
+                            shp = defs[shp.id][0]
+                        if isinstance(shp, ast.Tuple) and not any(isinstance(e, ast.Starred) for e in shp.elts) \
+                                and not any(isinstance(e, ast.Slice) or (isinstance(e, ast.Constant) and e.value is None) for e in sl):
+                            full = len(shp.elts) - len(sl)
+                    if full is None:
+                        continue
                     txt = dump(n.value)
                     symmetrised = ".T" in txt and "+" in txt
                     if full >= 2 and not symmetrised:
